@@ -32,7 +32,7 @@ pub struct Case {
 }
 
 fn strategy(maxdim: usize) -> BoxedStrategy<Case> {
-    (1..=maxdim, 1..=maxdim, 1..=maxdim)
+    (sized(maxdim, maxdim + 6), sized(maxdim, maxdim + 6), sized(maxdim, maxdim + 6))
         .prop_flat_map(|(n, m, p)| {
             (
                 (aff(p, m), aff(p, m), aff(m, n), aff_of(p, m, pow2_nonzero().boxed())),
